@@ -148,3 +148,30 @@ Definition C14_dedup_by_link_full : Prop :=
 Theorem C14_dedup_by_link_refuted : ~ C14_dedup_by_link_full.
 Proof. exact dedup_by_link_refuted_proof. Qed.
 Print Assumptions C14_dedup_by_link_refuted.
+
+(* Several groups in one configuration: the decoded list has one group per declared group and group i
+   is what decoding group i ALONE gives - its own filter lines in order, its own annotations (one per
+   line), its last policy setting - whatever the other groups contain and in whatever order. *)
+Theorem C14_groups_decoded_independently :
+  forall sections,
+    List.length (decode_groups sections) = List.length sections
+    /\ forall i s, nth_error sections i = Some s ->
+                   nth_error (decode_groups sections) i = nth_error (decode_groups [s]) 0
+                   /\ nth_error (decode_groups sections) i = Some (spec_group_decl s).
+Proof. exact groups_decoded_independently_proof. Qed.
+Print Assumptions C14_groups_decoded_independently.
+
+(* annotation j belongs to line j: the two decoded lists always have the same length *)
+Theorem C14_group_annotations_aligned :
+  forall items, List.length (filters_of items) = List.length (annos_of items).
+Proof. exact filters_annos_aligned. Qed.
+Print Assumptions C14_group_annotations_aligned.
+
+(* Decoding every group into one shared scratch element is NOT independent (a filter-less group keeps
+   the filters of the nearest earlier filtered group). *)
+Definition C14_shared_scratch_full : Prop :=
+  forall sections i s, nth_error sections i = Some s ->
+                       nth_error (decode_groups_shared sections) i = nth_error (decode_groups_shared [s]) 0.
+Theorem C14_shared_scratch_refuted : ~ C14_shared_scratch_full.
+Proof. exact shared_scratch_refuted_proof. Qed.
+Print Assumptions C14_shared_scratch_refuted.
